@@ -41,7 +41,7 @@ def ext_blocks(draw):
     from vlib import strat, ref9171 as r
     kind = draw(st.sampled_from(['prev', 'hop', 'hop', 'age', 'unknown', 'unknown']))
     crc = draw(st.sampled_from([0, 1, 2]))
-    flags = draw(strat.flag_sets(strat.BLOCK_FLAGS))
+    flags = draw(strat.flag_sets(strat.BLOCK_FLAGS + strat.UNASSIGNED_BLOCK_FLAGS[:2]))
     if kind == 'prev':
         return dict(type=6, flags=flags, crc_type=crc, data=r.btsd_previous_node(draw(strat.eids(allow_none=False))))
     if kind == 'hop':
@@ -63,7 +63,7 @@ def bundle_specs():
     return st.fixed_dictionaries({
         'ext': st.lists(ext_blocks(), max_size=5),
         'nums': st.lists(st.one_of(st.integers(2, 12), st.sampled_from([23, 24, 255, 256, 70000])), min_size=5, max_size=5, unique=True),
-        'flags': strat.flag_sets(strat.REPORT_FLAGS + strat.OTHER_FLAGS),
+        'flags': strat.flag_sets(strat.REPORT_FLAGS + strat.OTHER_FLAGS + strat.UNASSIGNED_BUNDLE_FLAGS[:4]),
         'pcrc': st.sampled_from([0, 1, 2]), 'ycrc': st.sampled_from([0, 1, 2]),
         'created_ago': st.one_of(st.none(), st.integers(0, 10 ** 7), st.sampled_from([0, 1, 23, 24, 255, 256, 65535, 65536])),
         'seq': strat.uints(2 ** 32), 'lifetime': st.one_of(st.sampled_from([1, 1000, 3600000]), strat.uints()),
